@@ -408,3 +408,43 @@ def tree_candidates(t):
             yield 0
     elif isinstance(t, dict) and "u" in t:
         yield None
+
+
+# --------------------------------------------------------------------------
+# "twins": values that compare (and hash) equal but encode differently - the
+# classic hazard for anything memoised by value.  In kio's value domain the
+# only such pair is +0.0 / -0.0 in float64 fields.
+
+_POS0, _NEG0 = "0000000000000000", "8000000000000000"
+
+
+def has_float(t) -> bool:
+    if isinstance(t, dict):
+        if "f64" in t:
+            return True
+        if "$" in t:
+            return any(has_float(v) for v in t["f"].values())
+        return False
+    if isinstance(t, list):
+        return any(has_float(v) for v in t)
+    return False
+
+
+def _map_floats(t, fn):
+    if isinstance(t, dict):
+        if "f64" in t:
+            return {"f64": fn(t["f64"])}
+        if "$" in t:
+            return {"$": t["$"], "f": {k: _map_floats(v, fn) for k, v in t["f"].items()}}
+        return t
+    if isinstance(t, list):
+        return [_map_floats(v, fn) for v in t]
+    return t
+
+
+def zero_twins(rng, tree):
+    """-> (a, b): a has every float leaf set to +0.0 or -0.0, b is a with the
+    signs flipped; a == b as instances, their encodings differ."""
+    a = _map_floats(tree, lambda h: rng.choice((_POS0, _NEG0)))
+    b = _map_floats(a, lambda h: _NEG0 if h == _POS0 else _POS0)
+    return a, b
